@@ -77,7 +77,10 @@ def entries():
         *[lambda e=e: histogram(e) for e in [[0], [], [0, 0], [1, 0], [0, 1, 1], [[0, 1], [1]], [[0, 1], [2, 1]]]])
     add("structures/histogram.py:61 histogram: bins of a wrong shape", ["LenaValueError"],
         lambda: histogram([0, 1, 2], [1]), lambda: histogram([0, 1, 2], [1, 2, 3]),
-        lambda: histogram([0, 1, 2], [[1, 2]]))      # ("a simple check": only the outer shape is demanded)
+        lambda: histogram([0, 1, 2], [[1, 2]]),      # ("a simple check": only the outer shape is demanded)
+        lambda: histogram([[0, 1], [0, 1, 2]], [[1, 2], [3, 4]]),
+        lambda: histogram([[0, 1, 2], [0, 1]], [[1]]),
+        lambda: histogram([[0, 1], [0, 1], [0, 1]], [[[1]], [[2]]]))
     add("structures/histogram.py:346 histogram.scale(other) with zero scale", ["LenaValueError"],
         lambda: histogram([0, 1, 2]).scale(1), lambda: histogram([0, 1, 2], [0, 0]).scale(2.0),
         lambda: histogram([[0, 1], [0, 1]]).scale(1))
